@@ -39,6 +39,21 @@ GUARDS = [
     ("conv2_weight_init", "conv", "LogicConv2d", "__init__", "if weight_init not in ('residual', 'random'):\n        raise ValueError"),
     ("conv2_sampling", "conv", "LogicConv2d", "__init__",
      "if forward_sampling not in ('soft', 'hard', 'gumbel_soft', 'gumbel_hard'):\n        raise ValueError"),
+    ("conv2_impl", "conv", "LogicConv2d", "__init__", "if implementation not in (None, 'python', 'cuda'):\n        raise ValueError"),
+    ("conv2_padding_sign", "conv", "LogicConv2d", "__init__", "if padding is not None and padding < 0:\n        raise ValueError"),
+    ("conv3_impl", "conv", "LogicConv3d", "__init__", "if implementation not in (None, 'python', 'cuda'):\n        raise ValueError"),
+    ("conv3_padding_sign", "conv", "LogicConv3d", "__init__", "if padding is not None and padding < 0:\n        raise ValueError"),
+    ("conv2_unique_alias", "conv", "LogicConv2d", "__init__", "elif connections in ('random-unique', 'unique'):"),
+    ("conv3_unique_alias", "conv", "LogicConv3d", "__init__", "elif connections in ('random-unique', 'unique'):"),
+    ("groupsum_k_positive", "groupsum", "GroupSum", "__init__", "if not k > 0:\n        raise ValueError", "top-if"),
+    ("compiled_pool_domain", "compiled", "CompiledLogicNet", "_validate_structure",
+     "if not (k > 0 and s > 0 and (0 <= 2 * p <= k) and all((int(n) + 2 * p >= k for n in current_shape[1:]))):\n                raise ValueError"),
+    ("compiled_forward_checks_shape", "compiled", "CompiledLogicNet", "forward", "self._check_batch_shape(x)", "top"),
+    ("compiled_shape_volume", "compiled", "CompiledLogicNet", "_check_batch_shape",
+     "ok = x.ndim >= 2 and int(np.prod(x.shape[1:])) == self._get_input_size()"),
+    ("compiled_shape_layout", "compiled", "CompiledLogicNet", "_check_batch_shape",
+     "if ok and len(declared) > 1:\n        ok = x.ndim == 2 or tuple(x.shape[1:]) == declared\n    elif ok and self.layer_order and (self.layer_order[0][0] != 'flatten'):\n        ok = x.ndim == 2"),
+    ("compiled_shape_raises", "compiled", "CompiledLogicNet", "_check_batch_shape", "if not ok:\n        raise ValueError"),
     ("conv2_stride", "conv", "LogicConv2d", "__init__", "assert stride <= receptive_field_size"),
     ("conv2_connections", "conv", "LogicConv2d", "__init__", "else:\n        raise ValueError(f'Unknown connections type: {connections}')"),
     ("conv2_fits", "conv", "LogicConv2d", "apply_sliding_window", "assert h_k <= h_padded and w_k <= w_padded"),
@@ -89,6 +104,8 @@ def gen_guards():
         if node is not None and "top" in flags:
             text = "\n".join(ast.unparse(st) for st in node.body
                              if not isinstance(st, (ast.If, ast.For, ast.While, ast.With, ast.Try, ast.FunctionDef)))
+        elif node is not None and "top-if" in flags:      # a top-level `if ...: raise` of the function
+            text = "\n".join(ast.unparse(st) for st in node.body if isinstance(st, ast.If))
         else:
             text = ast.unparse(node) if node is not None else ""
         ok = node is not None and _flat(snip) in _flat(text)
